@@ -39,6 +39,8 @@ Step ==
     \/ (Kind = "poly" /\ L!Derive)
     \/ (Kind = "poly" /\ \E k \in { << RInt(0), RInt(1) >>, << RInt(-1), RInt(0) >> } : L!Integrate(k[1], k[2]))
     \/ \E g \in G : \E sub \in BOOLEAN : L!Combine(g, sub)
+    \/ \E i \in 1..Len(ends) : \E e \in { RInt(0), RInt(1), RInt(2) } : L!EditEnd(i, e)
+    \/ L!PopPiece
     \/ \E x \in Xs : L!Evaluate(x)
     \/ L!NewHandle \/ L!DropHandle
     \/ \E x \in Xs : L!HandleQuery(x)
@@ -62,4 +64,9 @@ IntegralFacts == L!IntegralFacts
 PathsAgree == L!PathsAgree
 \* the borrow: while a handle or a batch lives, the object is what it was when the borrow began
 Borrow == (handle = "live" \/ vprev > 0) => lastop.op \in { "new", "query", "drop", "vstart", "vnext", "vend", "eval" }
+\* an in-place edit leaves the pieces it does not remove untouched, and evaluation afterwards is Select on the NEW ends
+EditFacts ==
+    /\ lastop.op = "editend" => (pieces = before.pieces /\ Len(ends) = Len(before.ends)
+                                  /\ \A j \in 1..Len(ends) : j # lastop.i => ends[j] = before.ends[j])
+    /\ lastop.op = "pop" => (Len(ends) = Len(before.ends) - 1 /\ \A j \in 1..Len(ends) : ends[j] = before.ends[j] /\ pieces[j] = before.pieces[j])
 =============================================================================
